@@ -212,7 +212,9 @@ func (x *pathCtx) assertProp(c value, msg, knownID string, fr *frame) {
 		x.ex.mu.Unlock()
 		if !c {
 			x.violation(kind, msg, knownID, nil, stack)
-			panic(assertStop{msg})
+			if kind != "finding" {
+				panic(assertStop{msg})
+			}
 		}
 	case sym:
 		neg := x.tt.Not(c.t)
